@@ -55,7 +55,7 @@ def stage(conf_src=None, tag="env"):
     env = dict(os.environ)
     env.update({
         "HOME": home,
-        "PYTHONPATH": conf + os.pathsep + REPO,
+        "PYTHONPATH": conf + os.pathsep + REPO + (os.pathsep + os.environ["VERIF_COVSITE"] if os.environ.get("VERIF_COVSITE") else ""),
         "PYTHONDONTWRITEBYTECODE": "1",
         "PYTHONHASHSEED": env.get("SPIL_HASHSEED", "0"),
         "SPIL_VERIF": "1",
